@@ -20,3 +20,17 @@ impl Str {
 // a string literal
 #[verifier::external_body]
 pub fn vx_lit(s: &'static str) -> (r: &'static Str) ensures r@ == s@ { unimplemented!() }
+// `==` on strings compares the character sequences
+impl PartialEqSpecImpl for Str {
+    open spec fn obeys_eq_spec() -> bool { true }
+    open spec fn eq_spec(&self, other: &Str) -> bool { self@ == other@ }
+}
+impl PartialEq for Str {
+    #[verifier::external_body]
+    fn eq(&self, other: &Str) -> (r: bool) { unimplemented!() }
+}
+// usize::to_string(): the decimal representation (injective, trusted)
+pub uninterp spec fn decimal(n: nat) -> Seq<char>;
+#[verifier::external_body]
+pub fn vx_to_string(n: usize) -> (r: Str) ensures r@ == decimal(n as nat) { unimplemented!() }
+pub axiom fn axiom_decimal_injective(a: nat, b: nat) ensures decimal(a) == decimal(b) ==> a == b;
